@@ -901,3 +901,71 @@ func rawCallsOf(f *ssa.Function) []ssa.CallInstruction {
 	}
 	return out
 }
+
+// ------------------------------------------------------------------ C17.R11
+// Two cooperating sites: the switch's accept loop goes on after the error *types* it knows as "this inbound
+// peer is refused" (ErrRejected, ErrFilterTimeout) and panics — by design, to be restarted — on anything
+// else. The functions that handle an inbound peer's bytes before it becomes a peer (filterConn, upgrade:
+// secret-connection handshake, node-info exchange and checks) must therefore report every failure as one of
+// those types; a plain error there turns a hostile or merely broken inbound connection into a node crash.
+func init() {
+	register("C17", "R11", "K5", "inbound connection set-up reports every failure as an error type the accept loop survives", 8, func(c *Ctx) {
+		w := c.W
+		loop := c.fn("p2p", "Switch.acceptRoutine")
+		if loop == nil {
+			return
+		}
+		survives := map[string]bool{}
+		asserted := assertedTypeNames(loop)
+		for _, t := range []string{"ErrRejected", "ErrFilterTimeout"} {
+			c.Check(asserted[t], funcKey(loop)+" :: goes on after "+t, w.pos(loop.Pos()), "case "+t, "the accept loop no longer has a case for "+t)
+			if asserted[t] {
+				survives[t] = true
+			}
+		}
+		k := newKeyer()
+		n := 0
+		for _, name := range []string{"MultiplexTransport.upgrade", "MultiplexTransport.filterConn"} {
+			f := c.fn("p2p", name)
+			if f == nil {
+				continue
+			}
+			for _, lr := range leafErrReturns(f) {
+				if isNilConst(lr.err) {
+					continue
+				}
+				// named result read back after the deferred cleanup: follow to what was stored
+				v := lr.err
+				if u, ok := v.(*ssa.UnOp); ok && u.Op == token.MUL {
+					if _, isAlloc := u.X.(*ssa.Alloc); isAlloc {
+						if rv := resultValueAt(lr.ret, len(lr.ret.Results)-1); rv != v {
+							v = rv
+						} else {
+							continue // the deferred closure's view of the result slot (checked at the stores)
+						}
+					}
+				}
+				if isNilConst(v) {
+					continue
+				}
+				n++
+				// frozen exemption (confirmed by reading): the error of resolving the connection's own remote
+				// address — an IP literal taken from the accepted socket, which LookupIPAddr answers without any
+				// lookup — is a local failure, not something a peer's bytes can cause
+				if regexp.MustCompile(`^p2p\.resolveIPs\(.*\)#1$`).MatchString(w.expr(v)) {
+					c.OK(k.key(f, "local address resolution failure is passed on"), w.ipos(lr.ret), "exempt: not driven by peer input")
+					continue
+				}
+				mi, isMI := v.(*ssa.MakeInterface)
+				tn := ""
+				if isMI {
+					if nt := derefNamed(mi.X.Type()); nt != nil {
+						tn = nt.Obj().Name()
+					}
+				}
+				c.Check(isMI && survives[tn], k.key(f, "failure is reported as a refused-peer error"), w.ipos(lr.ret), "ErrRejected / ErrFilterTimeout", "returns "+w.expr(v)+" (type "+tn+"): the accept loop panics on it — a failing inbound connection takes the node down")
+			}
+		}
+		c.Check(n >= 6, "p2p :: inbound set-up failure exits found", "-", ">= 6", fmt.Sprintf("%d", n))
+	})
+}
